@@ -128,3 +128,128 @@ Example C02_success_nonvacuous :
              existsb is_success (pa_events r) = false /\
              existsb (fun e => match e with EvComplete c _ _ => Z.eqb c 7 | _ => false end) (pa_events r) = true).
 Proof. split; eexists; vm_compute; repeat split. Qed.
+
+(* ------------------------------------------------------------------------------------------------------------------
+   END TO END, over histories (Proofs/DaemonE2E.v): the three layers above - the client layer's terminal reply, the daemon's
+   delivery of the completion callbacks, the device layer's completion events - in ONE theorem about every pass of every
+   run of the whole-daemon model (Model/Daemon.v) from start-up: any rounds (any client input, any number of clients, any
+   transport, any peer behaviour, any clock).
+
+   An external ghost LEDGER is threaded along the run (drun_led / dstep_led; no Model file knows about it): for every client
+   id (enq, ok, fail) = the device actions enqueued for its current command, the completions with ACT_ESUCCESS and the
+   completions with an error seen since.  It is computed only from what the components of a pass return: the enqueue list
+   `q` that _parse_input hands to dev_enqueue_actions (a new command: (total q, 0, 0)), and the EvComplete events of the
+   event list the pass returns, in delivery order.  It never reads a pending counter, an error flag or a device queue.
+
+   (1) the ledger is tied to the state, before and after the pass: for EVERY id the number of its actions still queued on
+       the devices is enq - ok - fail; a client's pending counter is enq - ok - fail > 0 and its error flag is (0 < fail);
+       for an idle client everything enqueued has completed;
+   (2) the callback half of the pass (sta = the state the client half cli_post_poll returns, stb = the state the pass
+       returns) leaves a client without a command exactly as it is; for every client with a POWER command in progress
+       when it begins: its output history gains exactly `render new`; any token list its stream was
+       accepted with (stream_ok) extends by `new` and is accepted again; while the command goes on, `new` holds
+       informational lines only; and when the stream gains the TERMINAL token of the command in this pass it is 102 or 210,
+       EVERY action enqueued for the command has produced its completion event in this or an earlier pass of the run
+       (ok + fail = enq > 0), and
+           102  <->  fail = 0 (so ok = enq: every completion carried ACT_ESUCCESS) and no result of the command's list is RT_UNKNOWN
+           210  <->  one completion carried an error, or a result is RT_UNKNOWN
+       with ledger and result list as they stand at the END of the pass.
+   The success completions are the ones of C02_success_only_when_script_finished: C02_end_to_end_scripts below. *)
+From PM Require Import Model.Daemon Spec.Proto Proofs.DaemonLedger Proofs.DaemonPending Proofs.DaemonE2E.
+From PM Require Proofs.DaemonE2EEx Properties.C07.
+Theorem C02_end_to_end : forall expand_str ranged_sorted ranged_plain sorted rmatch compress short_circuit st0 now plans rs r,
+  boot compress st0 -> Z.of_nat (length rs) < INT_MAX - 1 ->
+  exists st1 o1, dinit st0 now plans = Ok (st1, o1) /\
+  match drun expand_str ranged_sorted ranged_plain sorted rmatch compress short_circuit st1 rs [] with
+  | Ok (st, _) =>
+    let L := drun_led expand_str ranged_sorted ranged_plain sorted rmatch compress short_circuit st1 rs lzero in
+    match cli_post_poll expand_str ranged_sorted ranged_plain sorted st r with
+    | Ok (sta, e1) =>
+      match dev_loop ranged_sorted rmatch compress short_circuit (length (dm_devs sta)) (r_now r) sta O (r_dev r) None [] with
+      | Ok (stb, tmo, e2) =>
+        dstep expand_str ranged_sorted ranged_plain sorted rmatch compress short_circuit st r = Ok (stb, mkDout (e1 ++ e2) tmo) /\
+        let Lb := dstep_led expand_str ranged_sorted ranged_plain sorted rmatch compress short_circuit st r L in
+        (* (1) *)
+        ledger_tied L st /\ ledger_tied Lb stb /\
+        (* (2) *)
+        (forall p x0, nth_error (dm_clients sta) p = Some x0 -> cl_cmd (dc x0) = None -> nth_error (dm_clients stb) p = Some x0) /\
+        forall p x0 k0, nth_error (dm_clients sta) p = Some x0 -> cl_cmd (dc x0) = Some k0 -> existsb (Z.eqb (k_com k0)) power_coms = true ->
+          exists x new, nth_error (dm_clients stb) p = Some x /\ cid x = cid x0 /\
+            cl_out (dc x) = cl_out (dc x0) ++ render new /\
+            (forall toks0, cli_okT x0 toks0 -> cli_okT x (toks0 ++ new)) /\
+            match cl_cmd (dc x) with
+            | Some k => Forall info_tok new /\ k_com k = k_com k0 /\ k_args k = k_args k0
+            | None =>
+                let r := Lb (cid x0) in let al := nth (k_args k0) (dm_store stb) [] in
+                exists infos c p, new = infos ++ [TLine c p; TPrompt] /\ Forall info_tok infos /\ (c = 102%N \/ c = 210%N) /\
+                  l_ok r + l_fail r = l_enq r /\ 0 < l_enq r /\ 0 <= l_ok r /\ 0 <= l_fail r /\
+                  (c = 102%N <-> l_fail r = 0 /\ l_ok r = l_enq r /\ no_unknown_result al = true) /\
+                  (c = 210%N <-> 0 < l_fail r \/ no_unknown_result al = false)
+            end
+      | _ => False
+      end
+    | _ => False
+    end
+  | _ => False
+  end.
+Proof. exact c02_end_to_end. Qed.
+(* ledger_tied L st (Proofs/DaemonE2E.v), spelled out *)
+Theorem C02_ledger_tied : forall L st,
+  ledger_tied L st <->
+  (forall id, cnt id (qall (dm_devs st)) = l_enq (L id) - l_ok (L id) - l_fail (L id) /\ 0 <= l_ok (L id) /\ 0 <= l_fail (L id)) /\
+  (forall x k, In x (dm_clients st) -> cl_cmd (dc x) = Some k ->
+     k_pending k = l_enq (L (cid x)) - l_ok (L (cid x)) - l_fail (L (cid x)) /\ k_error k = (0 <? l_fail (L (cid x))) /\
+     l_ok (L (cid x)) + l_fail (L (cid x)) < l_enq (L (cid x))) /\
+  (forall x, In x (dm_clients st) -> cl_cmd (dc x) = None -> l_ok (L (cid x)) + l_fail (L (cid x)) = l_enq (L (cid x))).
+Proof. exact (fun L st => iff_refl _). Qed.
+(* non-vacuity (Proofs/DaemonE2EEx.v; evaluated): a daemon with one coprocess device that satisfies `boot`; client 1 sends `on n1`;
+   in the fifth pass the device's `done` completes the script: the event EvComplete 1 ACT_ESUCCESS is delivered, the ledger
+   entry of id 1 goes from (1,0,0) to (1,1,0) and the stream of client 1 gains `102 Command completed successfully` and
+   the prompt.  Against a silent device the login times out at 7 s: ledger (1,0,1), and the stream gains the 308 line,
+   `210 Command completed with errors` and the prompt. *)
+Example C02_end_to_end_nonvacuous :
+  boot C07.ex_compress DaemonE2EEx.e2e_st /\
+  DaemonE2EEx.last_pass DaemonE2EEx.power_rounds =
+    Some ([(1, Some PM_POWER_ON, DaemonE2EEx.banner)],
+          [(1, None, DaemonE2EEx.banner ++ render [TLine 102 (bslit "Command completed successfully"); TPrompt])],
+          [SysDev 0 (EvWrote (bslit "on p1\n")); SysDev 0 (EvMatched 4); SysDev 0 (EvComplete 1 ACT_ESUCCESS [])],
+          mkL 1 0 0, mkL 1 1 0, [[mkArg (bslit "n1") ST_UNKNOWN RT_NONE None]], []) /\
+  DaemonE2EEx.last_pass DaemonE2EEx.fail_rounds =
+    Some ([(1, Some PM_POWER_ON, DaemonE2EEx.banner)],
+          [(1, None, DaemonE2EEx.banner ++ render [TLine 308 (bslit "d0: login timeout"); TLine 210 (bslit "Command completed with errors"); TPrompt])],
+          [SysDev 0 (EvComplete 1 ACT_ELOGINTIMEOUT (bslit "d0: login timeout")); SysDev 0 EvDisconnect; SysDev 0 EvConnect],
+          mkL 1 0 0, mkL 1 0 1, [[mkArg (bslit "n1") ST_UNKNOWN RT_NONE None]], []).
+Proof. exact (conj DaemonE2EEx.e2e_boot (conj DaemonE2EEx.power_example DaemonE2EEx.fail_example)). Qed.
+Print Assumptions C02_end_to_end.
+
+(* ... and the device layer's half inside the same histories: every completion event with ACT_ESUCCESS that any pass of any
+   run from start-up produces - these are exactly the events the ledger counts as `ok` - was produced by an iteration of
+   _process_action (pa_step, from a device state that satisfies the device invariant) that finished the LAST statement of
+   the head action's script with the error code still ACT_ESUCCESS (`finishing`: the `Completed` step of C08_refines; every
+   expect matched, every statement once), for the action at the head of that device's queue, and carries that action's
+   client id. *)
+Theorem C02_end_to_end_scripts : forall expand_str ranged_sorted ranged_plain sorted rmatch compress short_circuit st0 now plans rs r,
+  boot compress st0 -> Z.of_nat (length rs) < INT_MAX - 1 ->
+  exists st1 o1, dinit st0 now plans = Ok (st1, o1) /\
+  match drun expand_str ranged_sorted ranged_plain sorted rmatch compress short_circuit st1 rs [] with
+  | Ok (st, _) =>
+    match dstep expand_str ranged_sorted ranged_plain sorted rmatch compress short_circuit st r with
+    | Ok (_, o) =>
+        forall j e, In (SysDev j e) (do_evs o) -> is_success e = true ->
+          exists d store tmo plans1 res act0 rest,
+            DInvG compress d /\ pa_step rmatch compress short_circuit (r_now r) d store tmo plans1 = Ok res /\ In e (pa_events res) /\
+            dv_acts d = act0 :: rest /\ a_hascb act0 = true /\ e = EvComplete (a_client act0) ACT_ESUCCESS [] /\
+            finishing rmatch compress short_circuit (r_now r) d store act0
+    | _ => False
+    end
+  | _ => False
+  end.
+Proof. exact c02_end_to_end_scripts. Qed.
+(* non-vacuity: the fifth pass of the example history produces such an event *)
+Example C02_end_to_end_scripts_nonvacuous :
+  match DaemonE2EEx.last_pass DaemonE2EEx.power_rounds with
+  | Some (_, _, evs, _, _, _, _) => In (SysDev 0 (EvComplete 1 ACT_ESUCCESS [])) evs /\ is_success (EvComplete 1 ACT_ESUCCESS []) = true
+  | None => False
+  end.
+Proof. rewrite DaemonE2EEx.power_example. split; [right; right; left; reflexivity|reflexivity]. Qed.
+Print Assumptions C02_end_to_end_scripts.
